@@ -170,11 +170,15 @@ def calibrate_direction(impl, orbit):
 
 
 def _run_once(impl, tgt, md, probe, cb=None):
+    """Construct the sampler on the table target (not watched: validate_target evaluates at a point of its own choice)
+    and run ONE transition (plus, for the stateless interface, a probe transition); off-lattice evaluations are watched."""
     import cuqi
     x0 = np.array([tgt.x[0]])
     dist = tgt.distribution()
+    watch, tgt.watch = tgt.watch, False
     if impl == "experimental":
         S = cuqi.experimental.mcmc.NUTS(dist, step_size=tgt.eps, max_depth=md, initial_point=x0)
+        tgt.watch = watch
         accs = []
         orig = S.step
 
@@ -186,6 +190,7 @@ def _run_once(impl, tgt, md, probe, cb=None):
         S.sample(1)
         return S, accs
     S = cuqi.sampler.NUTS(dist, x0=x0, max_depth=md, adapt_step_size=tgt.eps, callback=cb)
+    tgt.watch = watch
     out = S.sample(3 if probe else 2)
     return S, out
 
@@ -200,8 +205,11 @@ def build_script(case, dirmap):
             expo.append(float(tau))
         elif d["k"] == "dir":
             uni.append(dirmap[1 if d["cls"] == "plus" else -1])
+        elif d["cls"] == "Below":
+            uni.append(below(float(tau)))
         else:
-            uni.append(below(float(tau)) if d["cls"] == "Below" else above(float(tau)))
+            # a uniform just above the threshold; for tau = 0 any interior value (u = 0 has probability zero)
+            uni.append(above(float(tau)) if tau > 0 else 0.5)
     return {"normal": normal, "exponential": expo, "uniform": uni}
 
 
@@ -298,11 +306,13 @@ def replay_experimental(case, orbit, dirmap):
             raise MachineryError("anchored state attribute %s is missing" % attr)
     pt, lp, gr = _f(S.current_point), _f(S.current_target_logd), _f(S.current_target_grad)
     out.obs = {"point": pt, "logd": lp, "grad": gr, "acc": accs}
+    tsel = tgt.t_of(pt)
+    if not math.isfinite(lp) or (tsel is not None and not math.isfinite(tgt.lp[tsel])):
+        return out.fail("nonfinite", "a point with non-finite log-density was selected",
+                        {"point": tgt.x[case["cur"]], "logd": tgt.lp[case["cur"]]}, {"point": pt, "logd": lp})
     if pt != tgt.x[case["cur"]]:
         return out.fail("point", "current_point is not the candidate the scripted decisions select",
                         tgt.x[case["cur"]], pt)
-    if not math.isfinite(lp):
-        return out.fail("nonfinite", "a point with non-finite log-density was selected", tgt.lp[case["cur"]], lp)
     if lp != tgt.lp[case["clp"]]:
         return out.fail("cache_logd", "cached log-density does not belong to the current point", tgt.lp[case["clp"]], lp)
     if gr != tgt.g[case["cg"]]:
@@ -365,11 +375,14 @@ def replay_legacy(case, orbit, dirmap):
     pt = float(smp[0, 1])
     ll = getattr(res, "loglike_eval", None)
     out.obs = {"point": pt}
+    tsel = tgt.t_of(pt)
+    if (ll is not None and not math.isfinite(float(ll[1]))) or (tsel is not None and not math.isfinite(tgt.lp[tsel])):
+        return out.fail("nonfinite", "a point with non-finite log-density was selected",
+                        {"point": tgt.x[case["cur"]], "logd": tgt.lp[case["cur"]]},
+                        {"point": pt, "logd": float(ll[1]) if ll is not None else tgt.lp.get(tsel)})
     if pt != tgt.x[case["cur"]]:
         return out.fail("point", "state after the transition is not the candidate the scripted decisions select",
                         tgt.x[case["cur"]], pt)
-    if ll is not None and not math.isfinite(float(ll[1])):
-        return out.fail("nonfinite", "a point with non-finite log-density was selected", tgt.lp[case["cur"]], float(ll[1]))
     if ll is not None and float(ll[1]) != tgt.lp[case["clp"]]:
         return out.fail("cache_logd", "stored log-density does not belong to the current point", tgt.lp[case["clp"]], float(ll[1]))
     # the caches AS USED by the next transition (probe transition with arbitrary draws): start point, gradient, energy
@@ -406,7 +419,7 @@ def replay_legacy(case, orbit, dirmap):
 # code -> spec: boolean facets of real transitions
 # ----------------------------------------------------------------------------------------------------------------
 def _close(a, b, rtol=1e-9, atol=1e-12):
-    a, b = np.asarray(a, dtype=float), np.asarray(b, dtype=float)
+    a, b = np.asarray(a, dtype=float).reshape(-1), np.asarray(b, dtype=float).reshape(-1)
     return a.shape == b.shape and bool(np.allclose(a, b, rtol=rtol, atol=atol, equal_nan=False))
 
 
